@@ -110,6 +110,26 @@ def check_create_arcs(chk, rep, repo):
             rep.fn("ARCS-acc", fn, "density bound (kept in a local, stored once): updated to distances[l] when larger",
                    True, line=ro.line)
             rep.fn("ARCS-init", fn, "density bound starts from 0 in this call", True)
+    rank_density = False
+    if "density bound" in accs and md and not [e for e in w.events if e.kind == "store" and e.target == accs["density bound"]
+                                                and sc.per.lid in e.loops]:
+        # the bound taken once, after the loops, as the largest of the per-rank maxima (each filled distance is counted in
+        # its rank's maximum, so this is the largest filled distance; nothing below 0 exists)
+        MD = md[0].target[1]
+        post = [e for e in w.events if e.kind == "store" and e.target == accs["density bound"] and e.seq > sc.per.last_seq]
+        if post and not post[0].loops and not own(post[0].guards) and not post[0].aug:
+            v = post[0].value
+            if v[0] == "call" and v[1] == ("builtin", "float") and len(v[2]) == 1 and not v[3]:
+                v = v[2][0]
+            zero_kw = ((), (("initial", ("const", 0)),), (("initial", ("const", 0.0)),))
+            forms = [("call", ("attr", MD, "max"), (), kw) for kw in zero_kw] + \
+                    [("call", ("mod", f), (MD,), kw) for f in ("numpy.max", "numpy.amax") for kw in zero_kw] + \
+                    [("call", ("builtin", "max"), (MD,), ())]
+            if v in forms:
+                rank_density = True
+                del accs["density bound"]
+                rep.fn("ARCS-acc", fn, "density bound (taken after the loops): the largest of the per-rank maxima", True, line=ro.line)
+                rep.fn("ARCS-init", fn, "density bound is recomputed from this call's maxima", True)
     for name, tgt in accs.items():
         st = [e for e in body if e.kind == "store" and e.target == tgt]
         want_guard = ("cmp", "<", tgt, d_r)
@@ -172,6 +192,8 @@ def check_create_arcs(chk, rep, repo):
     # fallback
     dens = ("attr", G, "density")
     fb = [e for e in w.events if e.kind == "store" and e.target == dens and e.seq > sc.per.last_seq]
+    if rank_density:
+        fb = fb[1:]  # (the first store after the loops is the bound itself)
     okf = len(fb) == 1 and fb[0].value in (("const", 1), ("const", 1.0)) and not fb[0].loops \
         and facts(own(fb[0].guards)) == (("cmp", "<", dens, ("const", 1e-05)),)
     if local_density:
